@@ -899,6 +899,40 @@ def rule_storage(rep: Report, ix: Index, tables: dict) -> None:
         rep.violation("C14.storage-attrs", f"{writer.ref}::info", f"`start_writing` does not store `field.attributes_serialized` under one info key (found {wkeys})", line=writer.node.lineno)
         return
     wkey = wkeys[0][0]
+    # the stored attributes describe the field of *this* writing session: the store happens on every normally
+    # completing path of start_writing and takes its value from the `field` parameter (a stale entry from an earlier
+    # session describes another grid / dtype / labels than the data written now)
+    from ..cfg_lite import all_paths
+
+    fparam = [a.arg for a in writer.node.args.args][1] if len(writer.node.args.args) > 1 else None
+    if fparam is None:
+        raise AnalysisError(f"{writer.ref}: parameter for the field vanished")
+
+    def ev_store(st):
+        if isinstance(st, ast.Assign) and len(st.targets) == 1 and isinstance(st.targets[0], ast.Subscript) and dotted(st.targets[0].value) == "self.info" and const_str(st.targets[0].slice) == wkey:
+            return "store"
+        return None
+
+    n_paths = 0
+    stale = []
+    for path, oc in all_paths(writer.node, event=ev_store):
+        if oc == "raise":
+            continue
+        n_paths += 1
+        stores = [st for k, st in path.events if k == "store"]
+        good = [st for st in stores if any(isinstance(x, ast.Name) and x.id == fparam for x in ast.walk(st.value))]
+        if not good:
+            stale.append([("" if pol else "not ") + ast.unparse(t)[:60] for t, pol in path.tests])
+    rep.oblige(f"storage:start_writing refreshes info[{wkey!r}] from the field on every completing path", not stale, stale[:3])
+    if stale:
+        rep.violation(
+            "C14.storage-attrs",
+            f"{writer.ref}::info-refresh",
+            f"`start_writing` completes without storing the attributes of `{fparam}` under info[{wkey!r}] when {stale[0] or 'always'}: the saved attributes keep describing the field of an earlier "
+            "session (other grid, labels, dtype), so attributes + data no longer reproduce what was written",
+            line=writer.node.lineno,
+        )
+    rep.floor("completing paths of StorageBase.start_writing", n_paths, 1)
     n_reads = 0
     for r in readers:
         rep.saw("functions", r.ref)
